@@ -1524,7 +1524,7 @@ method or constructor of some type."""
 
         if isinstance(target, ast.Class):
             parent = origin_node
-            while parent and (not parent.gi_name == 'GObject.Object'):
+            while parent:
                 if parent == target:
                     break
                 if parent.parent_type:
